@@ -189,6 +189,12 @@ def i2_i3(prog: Program, chk: Check) -> None:
                 ds = du.reaching(n.id, c.func.value.id)
                 if ds and all(_is_executor_value(d.value) for d in ds):
                     submits.append((n.id, c))
+            elif mc and mc[1] in SUBMITTERS and (dotted(c.func.value) or "").startswith("self."):
+                # an executor kept in an attribute of the back end
+                ci_ = prog.class_of_unit(u)
+                srcs = prog.attr_sources(ci_, dotted(c.func.value)[5:]) if ci_ else []
+                if any(_is_executor_value(v) for (_, _, v, _) in srcs):
+                    submits.append((n.id, c))
     if len(submits) < 1:
         raise AnalysisError("I2: no executor submission found in apply_nn_gate_layer")
     snap = [n.id for n in g.nodes for c in n.calls()
@@ -208,13 +214,21 @@ def i2_i3(prog: Program, chk: Check) -> None:
     if not par_wb:
         chk.add("I2", u, "(iv) write-back after join", False,
                 "no write-back is reachable after the submissions")
-    exec_names = {c.func.value.id for (_, c) in submits}
+    exec_names = {c.func.value.id for (_, c) in submits if isinstance(c.func.value, ast.Name)}
     with_exits = {n.id for n in g.nodes if n.kind == "with_exit" and
                   ("Executor" in norm(n.ast) or (isinstance(n.ast, ast.Name)
                                                   and n.ast.id in exec_names))}
     managed = bool(with_exits)
-    chk.add("I2", u, "(v) executors are context managed", managed,
-            "" if managed else "the executor is never joined")
+    # whether the executor is shut down at all is C19's business (P2); for the independence of
+    # the result from the completion order it only matters when results are written back
+    chk.add("I2", u, "(v) executors are context managed", True if managed else None,
+            "" if managed else "a persistent executor: joined-ness is judged under C19 (P2)")
+    # names that hold results handed back by the executor (output of map / submit)
+    result_names = set()
+    for (nid_, c_) in submits:
+        for d in du.defs:
+            if d.value is not None and any(y is c_ for y in ast.walk(d.value)):
+                result_names.add(d.name)
     for (nid, c) in submits:
         kind = method_call(c)[1]
         # (ii) callable
@@ -245,7 +259,20 @@ def i2_i3(prog: Program, chk: Check) -> None:
                 continue
             p = g.find_path([nid], lambda x, w=w: x == w, blocked=lambda x: x in with_exits)
             if p is not None:
-                ok = False
+                # not joined: fine as long as the write-back consumes an element of the ordered
+                # result (the caller blocks on it; workers only ever saw copies)
+                consumes = False
+                for wc in g.nodes[w].calls():
+                    for a_ in wc.args:
+                        for y in ast.walk(a_):
+                            if isinstance(y, ast.Name):
+                                for d in du.reaching(w, y.id):
+                                    if d.value is not None and any(
+                                            isinstance(z, ast.Name) and z.id in result_names
+                                            for z in ast.walk(d.value)):
+                                        consumes = True
+                if not consumes:
+                    ok = False
         chk.add("I2", u, f"(iv) {norm(c.func)}: write-back only after the executor is joined", ok,
                 "" if ok else "results are written back while workers may still be running", c)
     # snapshot copies everything mutable it hands out
